@@ -12,6 +12,15 @@ pub broadcast proof fn axiom_spec_lz(x: usize)
 { }
 pub assume_specification [usize::leading_zeros] (x: usize) -> (r: u32)
     ensures r == spec_lz(x);
+// `usize::ilog2` (core docs): floor of the base-2 logarithm; panics on 0
+pub uninterp spec fn spec_ilog2(x: usize) -> u32;
+#[verifier::external_body]
+pub broadcast proof fn axiom_spec_ilog2(x: usize)
+    ensures x > 0 ==> (#[trigger] spec_ilog2(x)) <= 63 && pow2i(spec_ilog2(x) as nat) <= x as int && (x as int) < pow2i((spec_ilog2(x) + 1) as nat),
+{ }
+pub assume_specification [usize::ilog2] (x: usize) -> (r: u32)
+    requires x > 0,
+    ensures r == spec_ilog2(x);
 
 /// N19: `.try_into()` is type-directed; each impl below states the std behaviour of one conversion (TB-6)
 pub struct VConvError { }
